@@ -5,6 +5,9 @@
 (* alarm):                                                                 *)
 (*   [id, base, faults, result, elapsed_ms, memory_error, timeout,         *)
 (*    peak_kb]                                                             *)
+(* elapsed_ms is the processor time open_fp consumed, peak_kb the growth of *)
+(* the peak resident set, timeout whether the 5 s processor-time alarm (or  *)
+(* the parent's wall-clock deadline) fired.                                 *)
 (* result is "ok" or the name of the exception class that escaped open_fp  *)
 (* ("process_died" when the child was killed).  faults is the sequence of  *)
 (* fault records TLC generated from Hostile (checked against the fault     *)
